@@ -1,0 +1,1 @@
+//! Verification hooks: autoalloc (see verif/mod.rs).
